@@ -3,6 +3,7 @@ package main
 // C08 — $badfilter disables exactly its twin rules, however many are present.
 
 import (
+	"os"
 	"fmt"
 	"go/token"
 	"go/types"
@@ -423,11 +424,27 @@ func checkBadfilterFilter(c *Ctx, filter, twin *ssa.Function, kBad int64) {
 	}
 	// tailFromFirstBad: in0[k:] with k = slices.IndexFunc(in0, isBad): nothing in front of k is a
 	// badfilter rule, so a scan of the tail sees all of them
-	tailFromFirstBad := func(coll *E) bool {
+	// firstBadOf: for in0[k:] or in0[k+1:] the position k (and whether the tail starts behind it)
+	firstBadOf := func(coll *E) (k *E, behind bool) {
 		if coll == nil || coll.Op != "slice" || coll.Args[0] != in0 || coll.Args[1] == nil || coll.Args[2] != nil {
+			return nil, false
+		}
+		k = coll.Args[1]
+		if k.Op == "bin" && k.Aux == "+" && len(k.Args) == 2 {
+			if isIntConst(k.Args[1], 1) {
+				return k.Args[0], true
+			}
+			if isIntConst(k.Args[0], 1) {
+				return k.Args[1], true
+			}
+		}
+		return k, false
+	}
+	tailFromFirstBad := func(coll *E) bool {
+		k, _ := firstBadOf(coll)
+		if k == nil {
 			return false
 		}
-		k := coll.Args[1]
 		if k.Op != "call" || k.Aux != "slices.IndexFunc" || len(k.Args) != 2 || k.Args[0] != in0 || k.Args[1].Op != "lambda" || len(k.Args[1].Args) != 1 {
 			return false
 		}
@@ -507,6 +524,13 @@ func checkBadfilterFilter(c *Ctx, filter, twin *ssa.Function, kBad int64) {
 	var collPhi map[ssa.Value]bool
 	for _, cp := range collects {
 		l := innermostLoop(loops, cp.call.Block())
+		if os.Getenv("UFCHECK_DEBUG_C08") != "" && l != nil {
+			if ph, ok := cp.call.Call.Args[0].(*ssa.Phi); ok {
+				for i, e := range ph.Edges {
+					fmt.Fprintln(os.Stderr, "C08DBG collphi edge", i, l.Blocks[ph.Block().Preds[i]], u.Show(s.Env[e]))
+				}
+			}
+		}
 		if l == nil || !fromInput(cp.elem) {
 			continue
 		}
@@ -515,6 +539,34 @@ func checkBadfilterFilter(c *Ctx, filter, twin *ssa.Function, kBad int64) {
 		rc := s.RCAt(cp.call)
 		want := u.bdd.And(cont, isBad(cp.elem))
 		full := ro != nil && ro.Full && (s.Env[ro.Coll] == in0 || tailFromFirstBad(s.Env[ro.Coll])) && onlyExhaustionExit(l)
+		if k, behind := firstBadOf(s.Env[ro.Coll]); full && behind {
+			// the scan starts behind the first badfilter rule: that one has to be in the collection
+			// already, as the only element of the list the scan appends to
+			full = false
+			if ph, ok := cp.call.Call.Args[0].(*ssa.Phi); ok {
+				for i, e := range ph.Edges {
+					if l.Blocks[ph.Block().Preds[i]] {
+						continue
+					}
+					init := s.Env[e]
+					if init == nil || init.Op != "slice" || init.Args[0].Op != "alloc" || init.Args[1] != nil || init.Args[2] != nil {
+						continue
+					}
+					n, first := 0, false
+					for _, ef := range s.Effects {
+						if ef.Kind == "store" && ef.Addr.Op == "iaddr" && ef.Addr.Args[0] == init.Args[0] {
+							n++
+							first = isIntConst(ef.Addr.Args[1], 0) && ef.Val.Op == "index" && ef.Val.Args[0] == in0 && ef.Val.Args[1] == k
+						}
+					}
+					if pt, ok := init.Args[0].Typ.(*types.Pointer); ok {
+						if at, ok := pt.Elem().Underlying().(*types.Array); ok && at.Len() == 1 && n == 1 && first {
+							full = true
+						}
+					}
+				}
+			}
+		}
 		exact := u.bdd.And(rc, cont) == u.bdd.And(want, s.RC[l.Header])
 		collOK = full && exact
 		c.Check(collOK, "C08.R1", shortFn(filter)+": collection holds every badfilter rule of the input", cp.call.Pos(),
